@@ -449,6 +449,46 @@ def install(I):
             return {"__row__": rows[0]}
         raise Unsupported("pd.DataFrame(...) shape")
 
+    class FileObj:
+        def __init__(self, payload):
+            self.payload = payload
+
+    def b_open(I, a, k):
+        files = getattr(I, "files", {})
+        path = a[0]
+        if path not in files:
+            raise PyRaise("FileNotFoundError", str(path))
+        return FileObj(files[path])
+
+    reg("open", b_open)
+    B["json.load"] = Builtin("json.load", lambda I, a, k: a[0].payload)
+
+    class RegexObj:
+        def __init__(self, pat):
+            import re as _re
+            self.rx = _re.compile(pat)
+
+        def py_getattr(self, I, name):
+            if name == "search":
+                def search(s):
+                    if not isinstance(s, str):
+                        raise Unsupported("regex search on a symbolic string")
+                    m = self.rx.search(s)
+                    return None if m is None else MatchObj(m)
+                return Builtin("search", lambda I_, a_, k_: search(*a_))
+            raise Unsupported("regex." + name)
+
+    class MatchObj:
+        def __init__(self, m):
+            self.m = m
+
+        def py_getattr(self, I, name):
+            if name == "group":
+                return Builtin("group", lambda I_, a_, k_: self.m.group(*[I_.conc_int(x) for x in a_]))
+            raise Unsupported("match." + name)
+
+    B["re.compile"] = Builtin("re.compile", lambda I, a, k: RegexObj(a[0]))
+
     for pre in ("pd.", "pandas."):
         B[pre + "concat"] = Builtin("pd.concat", pd_concat)
         B[pre + "DataFrame"] = Builtin("pd.DataFrame", pd_dataframe)
